@@ -1,4 +1,5 @@
 import CircBuf.Lemmas.Faults
+import CircBuf.Lemmas.FillFault
 /-!
 # C05 — a panicking element destructor never causes a second drop or a corrupt buffer
 
@@ -15,7 +16,10 @@ The fault plan is a counter: "the `k`-th destructor call from now panics" (`faul
   no element can be destroyed a second time because none of the destroyed ones is in the buffer;
 * dropping a drain whose destructor call panics: all not-yet-yielded elements are still destroyed
   exactly once, the buffer stays in its empty state (valid; the flanks are leaked, not duplicated).
-`From<[T; M]>`, `fill`, `extend_from_slice`, `clone_from` are covered by the fault-plan
+* `fill(value)` (`C05_fill`): when a destructor panics while the old contents are cleared, every old
+  element was still destroyed exactly once, `value` (owned by the callee) is destroyed exactly once,
+  and the buffer is left empty and valid.
+`From<[T; M]>`, `fill_with`, `extend_from_slice`, `clone_from` are covered by the fault-plan
 correspondence (every operation × every layout × every `k`) and the ledger oracle.
 -/
 namespace CircBuf
@@ -51,6 +55,14 @@ theorem C05_drain_drop (b0 : CB) (d : Drain) (s : Sys) (hd : DrainInv b0 d s)
     ∃ s', d.drop s = (.error (.user "drop"), s') ∧ s'.buf = s.buf ∧
       s'.log = dropEvents s.kind (((abs b0).drop d.is).take (d.ie - d.is)) ++ s.log :=
   drainDrop_panics b0 d s hd hk hfire
+
+theorem C05_fill (s : Sys) (value : Elem) (h : Inv s.buf)
+    (hk : ¬ (s.kind = .byte ∨ s.kind = .plain))
+    (hfire : 1 ≤ s.faults.drop ∧ s.faults.drop ≤ s.buf.size) :
+    ∃ s', fill value s = (.error (.user "drop"), s') ∧ Inv s'.buf ∧ abs s'.buf = [] ∧
+      s'.buf.cap = s.buf.cap ∧
+      s'.log = dropEvents s.kind [value] ++ dropEvents s.kind (abs s.buf) ++ s.log :=
+  fill_drop_fault s value h hk hfire
 
 /-- non-vacuity: the 2nd of 3 destructor calls panics — the outcome is a panic, not `ok` -/
 example : dropOutcome 2 3 = .error (.user "drop") := by simp [dropOutcome]
